@@ -449,12 +449,16 @@ def run(cr: CheckRun) -> None:
 
 
 def replay(path: str) -> int:
+    """re-assembles the recorded program; exit 1 iff the recorded violation key is produced again"""
     vlib.setup_repo_imports()
-    rec = json.loads(Path(path).read_text())["replay"]
-    r = observe(1, [{k: v for k, v in s.items()} for s in rec["prog"]], rec["lines"], "NOP\n")
-    v = judge(999, [r])
-    print(r["src"], r["outcome"], r["err"], v[2])
-    return 1 if v[2] else 0
+    doc = json.loads(Path(path).read_text())
+    rec = doc["replay"]
+    prog = [{k: v for k, v in s.items()} for s in rec["prog"]]
+    r = _job((999, [(1, prog, rec["lines"])]))
+    keys = [f"{clause}:{kk}" for clause, kk, *_ in r[1]]
+    print("\n".join(rec["lines"]))
+    print("verdict keys:", keys, "recorded:", doc.get("key"))
+    return 1 if doc.get("key") in keys else 0
 
 
 def selftest(seed: int) -> int:
